@@ -75,3 +75,126 @@ Definition c18_lens_bounded (cs : nat) (groups lens : list nat) : bool :=
   (fold_right Nat.add 0 lens =? fold_right Nat.add 0 groups).
 Definition c18_tasks_agree (w : nat) (lens : list nat) (tasks : list (list nat)) : bool :=
   list_eqb nlist_eqb (map (fun l => array_split_sizes l w) lens) tasks.
+
+(* ---------- reader history: the public reader object as a state machine ----------
+   catalog/readers.py:DataChunkReader is its own iterator:
+     __iter__ : _reset_iter_state(); return self
+     __next__ : StopIteration when exhausted (state unchanged), otherwise advance the state and request
+   so every use of the object (a peek next(iter(r)), an aborted for-loop, islice / zip previews, nested loops,
+   get_probe = a complete pass, the loop of write_patches = a complete pass) is a word over three operations.
+   The machine is generic in the state (offset for the data-frame / HDF5 / FITS / random readers; offset,
+   row-group cursor and row-group cache for Parquet) and in the POLICY `rewinds` that says in which states
+   iter() rewinds: the code rewinds always; `rewinds only when exhausted` is the variant refuted in
+   Proofs/ChunksBufP.v. *)
+Inductive rd_op := RdIter | RdNext (k : nat) | RdPass.
+
+Section ReaderHistory.
+  Context {St Rq : Type}.
+  Context (init : St) (next : St -> option (St * Rq)) (rewinds : St -> bool).
+
+  (* k calls of next(); a call on an exhausted reader raises StopIteration and changes nothing *)
+  Fixpoint rd_nexts (k : nat) (st : St) : St * list Rq :=
+    match k with
+    | O => (st, [])
+    | S k' => match next st with
+              | None => (st, [])
+              | Some (st1, r) => let '(st2, rs) := rd_nexts k' st1 in (st2, r :: rs)
+              end
+    end.
+  Definition rd_iter (st : St) : St := if rewinds st then init else st.
+  (* RdPass = iter() followed by next() until StopIteration (fuel = a bound on the number of chunks) *)
+  Definition rd_step (fuel : nat) (st : St) (op : rd_op) : St * list Rq :=
+    match op with
+    | RdIter => (rd_iter st, [])
+    | RdNext k => rd_nexts k st
+    | RdPass => rd_nexts fuel (rd_iter st)
+    end.
+  (* what every operation of a history requests from the source, operation by operation *)
+  Fixpoint rd_trace (fuel : nat) (st : St) (ops : list rd_op) : list (list Rq) :=
+    match ops with
+    | [] => []
+    | op :: r => let '(st1, q) := rd_step fuel st op in q :: rd_trace fuel st1 r
+    end.
+  Fixpoint rd_state (fuel : nat) (st : St) (ops : list rd_op) : St :=
+    match ops with
+    | [] => st
+    | op :: r => rd_state fuel (fst (rd_step fuel st op)) r
+    end.
+End ReaderHistory.
+
+Definition rewinds_always {St} (_ : St) : bool := true.
+
+(* --- the offset readers: state = _num_samples --- *)
+Definition off_next (n cs off : nat) : option (nat * (nat * nat)) :=
+  if n <=? off then None else Some (off + cs, (off, Nat.min (off + cs) n)).
+(* the refuted policy: `if self._num_samples >= self.num_records: self._reset_iter_state()` *)
+Definition off_rewinds_exhausted (n off : nat) : bool := n <=? off.
+
+Definition off_trace (n cs : nat) (ops : list rd_op) : list (list (nat * nat)) :=
+  rd_trace 0 (off_next n cs) rewinds_always n 0 ops.
+Definition off_trace_lazy (n cs : nat) (ops : list rd_op) : list (list (nat * nat)) :=
+  rd_trace 0 (off_next n cs) (off_rewinds_exhausted n) n 0 ops.
+
+Definition is_pass (op : rd_op) : bool := match op with RdPass => true | _ => false end.
+
+(* checker for the tie: log = the requests (clipped to n) observed during every operation of the history.
+   flags: [model agrees operation by operation;
+           every complete pass (whatever came before) requests every record once, in slices of 1..cs;
+           no operation requests more than cs records at once (raw = unclipped length bound, from the harness);
+           the records handed over by the passes / stored in the catalog are the records of the source] *)
+Definition c18_hist_case (n cs : nat) (ops : list rd_op) (log : list (list (nat * nat))) (raw rows : bool) : nat :=
+  code [list_eqb (list_eqb pair_eqb) (off_trace n cs ops) log;
+        (length ops =? length log) &&
+        forallb (fun ol => negb (is_pass (fst ol)) || c18_spec n cs (snd ol)) (combine ops log);
+        raw && forallb (forallb (fun se => slice_len se <=? cs)) log;
+        rows].
+(* random reader: sizes of the generator calls during every operation *)
+Definition c18_hist_sizes_case (n cs : nat) (ops : list rd_op) (sizes : list (list nat)) (rows : bool) : nat :=
+  code [list_eqb nlist_eqb (map (map slice_len) (off_trace n cs ops)) sizes;
+        (length ops =? length sizes) &&
+        forallb (fun ol => negb (is_pass (fst ol)) ||
+                           ((fold_right Nat.add 0 (snd ol) =? n) &&
+                            forallb (fun l => (1 <=? l) && (l <=? cs)) (snd ol))) (combine ops sizes);
+        forallb (forallb (fun l => l <=? cs)) sizes;
+        rows].
+
+(* --- the Parquet reader: state = (_num_samples, _group_idx, _group_cache, row groups not yet requested);
+       one next() = _load_groups + _extract_chunk; request = (indices of the row groups read, chunk delivered) --- *)
+Definition pq_state (A : Type) : Type := (nat * nat * list (list A) * list (list A))%type.
+Definition pq_init {A} (groups : list (list A)) : pq_state A := (0, 0, [], groups).
+Definition pq_next {A} (n cs : nat) (st : pq_state A) : option (pq_state A * (list nat * list A)) :=
+  let '(s, off, cache, file) := st in
+  if n <=? s then None else
+    let '(cache1, file1) := load_groups cs cache file in
+    let '(chunk, cache2) := extract_chunk cs cache1 in
+    let k := length file - length file1 in
+    Some ((s + cs, off + k, cache2, file1), (seq off k, chunk)).
+(* the refuted policy leaves cursor and cache where they are, too *)
+Definition pq_rewinds_exhausted {A} (n : nat) (st : pq_state A) : bool :=
+  let '(s, _, _, _) := st in n <=? s.
+
+Definition pq_trace {A} (cs : nat) (groups : list (list A)) (ops : list rd_op) : list (list (list nat * list A)) :=
+  let n := length (concat groups) in
+  rd_trace (pq_init groups) (pq_next n cs) rewinds_always n (pq_init groups) ops.
+Definition pq_trace_lazy {A} (cs : nat) (groups : list (list A)) (ops : list rd_op) : list (list (list nat * list A)) :=
+  let n := length (concat groups) in
+  rd_trace (pq_init groups) (pq_next n cs) (pq_rewinds_exhausted n) n (pq_init groups) ops.
+
+(* checker: per operation the row groups requested (reqs, flat) and the lengths of the chunks delivered
+   (lens; None where the harness cannot see the chunks, i.e. inside write_patches).
+   flags: [row-group requests = model, operation by operation; chunk lengths = model where observed;
+           every complete pass requests every row group once in file order;
+           rows handed over / stored = rows of the file] *)
+Definition c18_pq_hist_case (cs : nat) (groups : list nat) (ops : list rd_op)
+                            (reqs : list (list nat)) (lens : list (option (list nat))) (rows : bool) : nat :=
+  let g := map (fun k => repeat 0%nat k) groups in
+  let tr := pq_trace cs g ops in
+  code [list_eqb nlist_eqb (map (fun q => concat (map fst q)) tr) reqs;
+        (length tr =? length lens) &&
+        forallb (fun ql => match snd ql with
+                           | None => true
+                           | Some l => nlist_eqb (map (fun r => length (snd r)) (fst ql)) l
+                           end) (combine tr lens);
+        (length ops =? length reqs) &&
+        forallb (fun ol => negb (is_pass (fst ol)) || nlist_eqb (snd ol) (seq 0 (length groups))) (combine ops reqs);
+        rows].
